@@ -627,7 +627,7 @@ pub fn generate(seed: u64, tier: &str, property: &str) -> RegScenario {
         config: Config { autoescape: None, prefixes, delims: Default::default(), global: SCtx::default(), custom: false },
         hash_base: rng.next_u64(),
         contexts: vec![SCtx::default()],
-        probe: Probe { names, blocks: pool.clone(), comps: vec![] },
+        probe: Probe { names, blocks: pool.clone(), comps: vec![], oneoffs: vec![] },
         ops,
         notes,
         fresh_seed: rng.next_u64(),
